@@ -282,6 +282,7 @@ def main(tier):
                                  "sent_to_tlc": len(cases)}
 
     nsup_checked = nsup_unknown = 0
+    sample_at = set(kept[:: max(1, len(kept) // 6)][1:])  # samples spread over core / random / object cases
     for i in kept:
         (text, meta), rr = item[i], real[i]
         c, sc = cases[i], spec_case[i]
@@ -401,11 +402,13 @@ def main(tier):
                     dict(base, node=nm, reported=[lo, hi], spec_support=[str(lo_s), str(hi_s)]),
                     known_key=key,
                 )
-        ck.sample(
-            {"program": text.replace(G.PRELUDE, ""), "evaluations": len(exp), "rng_branches": rr["branches"],
-             "one_expected": fmt(sorted(exp, key=repr)[0])},
-            limit=5,
-        )
+        if i in sample_at:
+            ck.sample(
+                {"kind": c.tag, "program": text.replace(G.PRELUDE, ""), "evaluations": len(exp),
+                 "rng_branches": rr["branches"], "one_expected": fmt(sorted(exp, key=repr)[0]),
+                 "spec_support_of_last": sc["sup"][ids[-1] - 1]},
+                limit=6,
+            )
     ck.cov["support_intervals_checked"] = nsup_checked
     ck.cov["support_intervals_unknown"] = nsup_unknown
     ck.cov["cases_replayed"] = len(kept)
